@@ -65,6 +65,7 @@ from modelx.core.parent import (
 )
 from modelx.core.formula import Formula, ModuleSource
 from modelx.core.cells import (
+    CellsImpl,
     Cells,
     DynamicCellsImpl,
     UserCellsImpl,
@@ -1679,19 +1680,33 @@ class UserSpaceImpl(*_user_space_impl_base):
 
         module = get_module(module)
         newcells = {}
+        funcs = {}
 
         for name in dir(module):
             func = getattr(module, name)
             if isinstance(func, FunctionType):
                 # Choose only the functions defined in the module.
                 if func.__module__ == module.__name__:
-                    if name in self.namespace and override:
-                        self.spmgr.set_cells_formula(
-                            self.cells[name], func)
-                        newcells[name] = self.cells[name]
-                    else:
-                        newcells[name] = self.spmgr.new_cells(
-                            self, name, func)
+                    funcs[name] = func
+
+        # Validate all the functions before any cells is created or changed
+        for name, func in funcs.items():
+            Formula(func)   # raises if func cannot be a formula
+            if name in self.namespace and override:
+                if name not in self.cells:
+                    raise ValueError("Cannot create cells '%s'" % name)
+            elif is_valid_name(name) and not self.spmgr._can_add(
+                    self, name, CellsImpl):
+                raise ValueError("Cannot create cells '%s'" % name)
+
+        for name, func in funcs.items():
+            if name in self.namespace and override:
+                self.spmgr.set_cells_formula(
+                    self.cells[name], func)
+                newcells[name] = self.cells[name]
+            else:
+                newcells[name] = self.spmgr.new_cells(
+                    self, name, func)
 
         return newcells
 
